@@ -25,9 +25,9 @@ Proofs/Walk.vos Proofs/Walk.vok Proofs/Walk.required_vos: Proofs/Walk.v Model/Da
 Proofs/DagApi.vo Proofs/DagApi.glob Proofs/DagApi.v.beautified Proofs/DagApi.required_vo: Proofs/DagApi.v Model/Dag.vo Proofs/Kahn.vo Proofs/Walk.vo
 Proofs/DagApi.vio: Proofs/DagApi.v Model/Dag.vio Proofs/Kahn.vio Proofs/Walk.vio
 Proofs/DagApi.vos Proofs/DagApi.vok Proofs/DagApi.required_vos: Proofs/DagApi.v Model/Dag.vos Proofs/Kahn.vos Proofs/Walk.vos
-Harness/Glue.vo Harness/Glue.glob Harness/Glue.v.beautified Harness/Glue.required_vo: Harness/Glue.v Lib/Bytes.vo Lib/Val.vo Model/Index.vo Model/Dag.vo Model/Git.vo Model/Tracking.vo Model/CfgFile.vo Model/Sched.vo Model/Plan.vo
-Harness/Glue.vio: Harness/Glue.v Lib/Bytes.vio Lib/Val.vio Model/Index.vio Model/Dag.vio Model/Git.vio Model/Tracking.vio Model/CfgFile.vio Model/Sched.vio Model/Plan.vio
-Harness/Glue.vos Harness/Glue.vok Harness/Glue.required_vos: Harness/Glue.v Lib/Bytes.vos Lib/Val.vos Model/Index.vos Model/Dag.vos Model/Git.vos Model/Tracking.vos Model/CfgFile.vos Model/Sched.vos Model/Plan.vos
+Harness/Glue.vo Harness/Glue.glob Harness/Glue.v.beautified Harness/Glue.required_vo: Harness/Glue.v Lib/Bytes.vo Lib/Val.vo Model/Index.vo Model/Dag.vo Model/Git.vo Model/Tracking.vo Model/CfgFile.vo Model/Sched.vo Model/Plan.vo Model/Lock.vo Model/Reader.vo
+Harness/Glue.vio: Harness/Glue.v Lib/Bytes.vio Lib/Val.vio Model/Index.vio Model/Dag.vio Model/Git.vio Model/Tracking.vio Model/CfgFile.vio Model/Sched.vio Model/Plan.vio Model/Lock.vio Model/Reader.vio
+Harness/Glue.vos Harness/Glue.vok Harness/Glue.required_vos: Harness/Glue.v Lib/Bytes.vos Lib/Val.vos Model/Index.vos Model/Dag.vos Model/Git.vos Model/Tracking.vos Model/CfgFile.vos Model/Sched.vos Model/Plan.vos Model/Lock.vos Model/Reader.vos
 Harness/Extract.vo Harness/Extract.glob Harness/Extract.v.beautified Harness/Extract.required_vo: Harness/Extract.v Harness/Glue.vo
 Harness/Extract.vio: Harness/Extract.v Harness/Glue.vio
 Harness/Extract.vos Harness/Extract.vok Harness/Extract.required_vos: Harness/Extract.v Harness/Glue.vos
@@ -139,3 +139,36 @@ Proofs/PlanProof.vos Proofs/PlanProof.vok Proofs/PlanProof.required_vos: Proofs/
 Properties/C11.vo Properties/C11.glob Properties/C11.v.beautified Properties/C11.required_vo: Properties/C11.v Lib/Bytes.vo Model/Plan.vo Proofs/PlanProof.vo
 Properties/C11.vio: Properties/C11.v Lib/Bytes.vio Model/Plan.vio Proofs/PlanProof.vio
 Properties/C11.vos Properties/C11.vok Properties/C11.required_vos: Properties/C11.v Lib/Bytes.vos Model/Plan.vos Proofs/PlanProof.vos
+Model/Lock.vo Model/Lock.glob Model/Lock.v.beautified Model/Lock.required_vo: Model/Lock.v 
+Model/Lock.vio: Model/Lock.v 
+Model/Lock.vos Model/Lock.vok Model/Lock.required_vos: Model/Lock.v 
+Proofs/LockProof.vo Proofs/LockProof.glob Proofs/LockProof.v.beautified Proofs/LockProof.required_vo: Proofs/LockProof.v Model/Lock.vo
+Proofs/LockProof.vio: Proofs/LockProof.v Model/Lock.vio
+Proofs/LockProof.vos Proofs/LockProof.vok Proofs/LockProof.required_vos: Proofs/LockProof.v Model/Lock.vos
+Properties/C14.vo Properties/C14.glob Properties/C14.v.beautified Properties/C14.required_vo: Properties/C14.v Model/Lock.vo Proofs/LockProof.vo
+Properties/C14.vio: Properties/C14.v Model/Lock.vio Proofs/LockProof.vio
+Properties/C14.vos Properties/C14.vok Properties/C14.required_vos: Properties/C14.v Model/Lock.vos Proofs/LockProof.vos
+Model/Reader.vo Model/Reader.glob Model/Reader.v.beautified Model/Reader.required_vo: Model/Reader.v 
+Model/Reader.vio: Model/Reader.v 
+Model/Reader.vos Model/Reader.vok Model/Reader.required_vos: Model/Reader.v 
+Proofs/ReaderProof.vo Proofs/ReaderProof.glob Proofs/ReaderProof.v.beautified Proofs/ReaderProof.required_vo: Proofs/ReaderProof.v Model/Reader.vo
+Proofs/ReaderProof.vio: Proofs/ReaderProof.v Model/Reader.vio
+Proofs/ReaderProof.vos Proofs/ReaderProof.vok Proofs/ReaderProof.required_vos: Proofs/ReaderProof.v Model/Reader.vos
+Model/Compressor.vo Model/Compressor.glob Model/Compressor.v.beautified Model/Compressor.required_vo: Model/Compressor.v Model/Reader.vo
+Model/Compressor.vio: Model/Compressor.v Model/Reader.vio
+Model/Compressor.vos Model/Compressor.vok Model/Compressor.required_vos: Model/Compressor.v Model/Reader.vos
+Proofs/CompressorProof.vo Proofs/CompressorProof.glob Proofs/CompressorProof.v.beautified Proofs/CompressorProof.required_vo: Proofs/CompressorProof.v Model/Reader.vo Model/Compressor.vo
+Proofs/CompressorProof.vio: Proofs/CompressorProof.v Model/Reader.vio Model/Compressor.vio
+Proofs/CompressorProof.vos Proofs/CompressorProof.vok Proofs/CompressorProof.required_vos: Proofs/CompressorProof.v Model/Reader.vos Model/Compressor.vos
+Properties/C08.vo Properties/C08.glob Properties/C08.v.beautified Properties/C08.required_vo: Properties/C08.v Model/Reader.vo Model/Compressor.vo Proofs/ReaderProof.vo Proofs/CompressorProof.vo
+Properties/C08.vio: Properties/C08.v Model/Reader.vio Model/Compressor.vio Proofs/ReaderProof.vio Proofs/CompressorProof.vio
+Properties/C08.vos Properties/C08.vok Properties/C08.required_vos: Properties/C08.v Model/Reader.vos Model/Compressor.vos Proofs/ReaderProof.vos Proofs/CompressorProof.vos
+Properties/C15.vo Properties/C15.glob Properties/C15.v.beautified Properties/C15.required_vo: Properties/C15.v Model/Reader.vo Proofs/ReaderProof.vo
+Properties/C15.vio: Properties/C15.v Model/Reader.vio Proofs/ReaderProof.vio
+Properties/C15.vos Properties/C15.vok Properties/C15.required_vos: Properties/C15.v Model/Reader.vos Proofs/ReaderProof.vos
+Properties/C20.vo Properties/C20.glob Properties/C20.v.beautified Properties/C20.required_vo: Properties/C20.v Model/Reader.vo Proofs/ReaderProof.vo
+Properties/C20.vio: Properties/C20.v Model/Reader.vio Proofs/ReaderProof.vio
+Properties/C20.vos Properties/C20.vok Properties/C20.required_vos: Properties/C20.v Model/Reader.vos Proofs/ReaderProof.vos
+AsFound/C08.vo AsFound/C08.glob AsFound/C08.v.beautified AsFound/C08.required_vo: AsFound/C08.v Model/Reader.vo Model/Compressor.vo Proofs/ReaderProof.vo Properties/C08.vo Properties/C15.vo
+AsFound/C08.vio: AsFound/C08.v Model/Reader.vio Model/Compressor.vio Proofs/ReaderProof.vio Properties/C08.vio Properties/C15.vio
+AsFound/C08.vos AsFound/C08.vok AsFound/C08.required_vos: AsFound/C08.v Model/Reader.vos Model/Compressor.vos Proofs/ReaderProof.vos Properties/C08.vos Properties/C15.vos
